@@ -660,7 +660,10 @@ MANIFEST = {
                   "newline). Products/quotients of any length are compound; split_compound returns their atoms in "
                   "order, inverted after '/', and invert_power negates the power (both after fix: commits). "
                   "sanitizer is idempotent for every string, fixes every atom, ignores blanks and maps the micro "
-                  "spellings to the u-prefixed atom. The statement shape of scaling() (shortcut, prefix chain, "
+                  "spellings to the u-prefixed atom. For ALL strings: scaling is InvalidUnit iff not scalable and "
+                  "otherwise the prefix ratio to the captured power (KeyError/ValueError impossible), composes and "
+                  "inverts; is_compound/is_si accept exactly their regex languages; the model's fuel is never "
+                  "exhausted. The statement shapes of is_si, scalable and scaling() (shortcut, prefix chain, "
                   "assigned expressions, power) and the branch table of invert_power are generated and proved "
                   "equal to the hand model for all inputs. The -3..3 table theorems (6510 entries, decide +kernel) "
                   "are kept. The hand-written regex engine is tied to the code by complete-table differential runs.",
